@@ -37,6 +37,8 @@ func main() {
 	roundTrip(r)
 	idGenerator(r)
 	strGenerator(r)
+	strOverlap(r)
+	idOverlap(r)
 	countGenerator(r)
 	r.Assume("small-scope: ParseBase32 inputs up to 3 arbitrary bytes (+ structured longer numerals); IDs < 2^20 (quick) / 2^24 (thorough) and 2^k-1,2^k,2^k+1",
 		"IdGenerator timestamps are compared with a bracket measured around the call, random source scripted through crypto/rand.Reader",
